@@ -127,7 +127,8 @@ def run_property(prop, tier, seed=0, only=None, jobs=None):
     discharged = [r for r in obligations if r["verdict"] == "unsat"]
     inconclusive = [r for r in obligations if r["verdict"] not in ("unsat", "sat")]
     sats = [r for r in obligations if r["verdict"] == "sat"]
-    vacuous = [r for r in reach if r["verdict"] != "sat"]
+    vacuous = [r for r in reach if r["verdict"] == "unsat"]
+    reach_unknown = [r for r in reach if r["verdict"] not in ("sat", "unsat")]
 
     violations, known_hits, spurious = [], [], []
     tmap = {t.name: t for t in tasks}
@@ -193,7 +194,7 @@ def run_property(prop, tier, seed=0, only=None, jobs=None):
             rule="one evaluation = one SMT query (negated obligation under path condition); distinct = distinct (obligation, path) pairs whose negated goal did not simplify to false syntactically",
             paths_explored=sum(o.get("paths", 0) for o in results),
             feasibility_queries=sum(o.get("feas_queries", 0) for o in results),
-            reachability_witnesses=dict(total=len(reach), sat=len(reach) - len(vacuous)),
+            reachability_witnesses=dict(total=len(reach), sat=len(reach) - len(vacuous) - len(reach_unknown), unknown=len(reach_unknown)),
             tasks=len(tasks), task_errors=len(errors),
             solver_time_s=round(sum(o.get("solver_time", 0.0) for o in results), 2),
             solvers=meta.get("solvers", ["z3 %s" % _z3ver()]),
